@@ -386,4 +386,23 @@ def run_case(case, R):
 
 def _occurs(plain, expected, s):
     """Does the expected (masked) tree itself contain s, i.e. through a non-sensitive field?"""
-    return any(s in x for x in c03._strings(expected))
+    if any(s in x for x in c03._strings(expected)):
+        return True
+    # ... or as the document's spelling of a non-string scalar (a float inf is written "Infinity" / ".inf", True "true", ...)
+    def scalars(t):
+        if isinstance(t, dict):
+            for k, v in t.items():
+                yield from scalars(k)
+                yield from scalars(v)
+        elif isinstance(t, (list, tuple)):
+            for v in t:
+                yield from scalars(v)
+        elif not isinstance(t, str):
+            yield t
+    for v in scalars(expected):
+        spellings = {str(v), repr(v), str(v).lower()}
+        if isinstance(v, float):
+            spellings |= {"Infinity", "-Infinity", "NaN", ".inf", "-.inf", ".nan", "inf", "nan"} if v != v or v in (float("inf"), float("-inf")) else {"%r" % v, "%g" % v}
+        if any(s in sp for sp in spellings):
+            return True
+    return False
